@@ -26,6 +26,7 @@ struct AllocSim {
     bool counting = false;
     uint64_t next_ordinal = 0;   // ordinal of the next allocation request in this call
     int64_t fail_at = -1;        // position to fail (-1: none)
+    int64_t fail_at2 = -1;       // second position to fail as well ("pair" policy)
     bool fail_from = false;      // fail every request >= fail_at
     uint64_t fired = 0;
     uint64_t epoch = 0;          // call counter
@@ -35,8 +36,8 @@ struct AllocSim {
     std::map<std::string, uint64_t> fired_kinds;
     std::string census; // e.g. "mmmM" (m malloc, c calloc, p posix_memalign, M mmap, r realloc)
 
-    void begin_call(int64_t at, bool from) {
-        next_ordinal = 0; fail_at = at; fail_from = from; fired = 0; epoch++;
+    void begin_call(int64_t at, bool from, int64_t at2 = -1) {
+        next_ordinal = 0; fail_at = at; fail_at2 = at2; fail_from = from; fired = 0; epoch++;
         freed_this_call.clear(); errors.clear(); census.clear(); counting = true;
     }
     void end_call() { counting = false; }
@@ -44,7 +45,7 @@ struct AllocSim {
         uint64_t ord = next_ordinal++;
         census.push_back(kind);
         if (fail_at < 0) return false;
-        bool f = fail_from ? (int64_t) ord >= fail_at : (int64_t) ord == fail_at;
+        bool f = fail_from ? (int64_t) ord >= fail_at : ((int64_t) ord == fail_at || (int64_t) ord == fail_at2);
         if (f) {
             fired++;
             const char *n = kind == 'm' ? "malloc_fail" : kind == 'c' ? "calloc_fail" : kind == 'p' ? "posix_memalign_fail" : kind == 'M' ? "mmap_fail" : "realloc_fail";
@@ -155,6 +156,7 @@ struct Op {
 struct PlanT {
     Json pk;
     uint64_t content_seed = 0;
+    bool pairs = false; // additionally fail every pair of positions (i, j)
     std::vector<Op> ops;
 };
 
@@ -300,8 +302,8 @@ struct Exec {
         return cr;
     }
 
-    CallResult armed_call(const Op &op, const Prepared &P, int64_t at, bool from) {
-        A.begin_call(at, from);
+    CallResult armed_call(const Op &op, const Prepared &P, int64_t at, bool from, int64_t at2 = -1) {
+        A.begin_call(at, from, at2);
         CallResult cr = call(op, P);
         A.end_call();
         return cr;
@@ -351,6 +353,23 @@ struct Exec {
                 }
             }
         }
+        // pairs: requests i and j both fail (a failure on the error path of an earlier failure); all i < j
+        if (plan.pairs && n >= 2 && n <= 12 && op.only_pos < 0) {
+            for (size_t i = 0; i + 1 < n && !res.violated; i++) for (size_t j = i + 1; j < n && !res.violated; j++) {
+                CallResult cr = armed_call(op, P, (int64_t) i, false, (int64_t) j);
+                res.steps++;
+                dg.add((uint64_t) cr.rc); dg.add((uint64_t) A.fired);
+                std::string loc = locus(op, census[i], (int) i) + "+" + std::to_string(j);
+                if (!A.errors.empty()) { res.fail("allocator-misuse", loc, A.errors[0] + " when requests " + std::to_string(i) + " and " + std::to_string(j) + " fail", step); break; }
+                auto leaks = A.leaks_of_this_call();
+                if (!leaks.empty()) { res.fail("leak", loc, "block " + leaks[0] + " still live after the call returned (requests " + std::to_string(i) + " and " + std::to_string(j) + " failed)", step); break; }
+                if (A.fired) {
+                    res.count("probe.pair_faulted_executions");
+                    if (cr.rc == 0) { res.fail("success-despite-failed-allocation", loc, std::string(api_name[op.api]) + " returned success although allocation requests " + std::to_string(i) + " and " + std::to_string(j) + " failed", step); break; }
+                    if (op.api == A_NEEDS_REHASH && cr.rc != -1) { res.fail("non-error-despite-failed-allocation", loc, "needs_rehash returned " + std::to_string(cr.rc), step); break; }
+                }
+            }
+        }
         if (res.violated) return;
         // nothing was left corrupted: a fault-free call with the same arguments equals the reference
         CallResult again = armed_call(op, P, -1, false);
@@ -383,7 +402,7 @@ struct C20 {
         return "seeded sample of calls {pwhash raw/str/str_verify/needs_rehash for argon2i and argon2id through the generic and the algorithm-specific entry points, "
                "scrypt raw/_ll/str/str_verify, sodium_malloc, sodium_allocarray} x parameters; for each call the sequence of allocation requests "
                "(malloc/calloc/posix_memalign/mmap) is recorded fault-free and then EVERY position is failed in turn under two policies (that request only; "
-               "that and all later ones), plus one execution past the end. evaluations = sampled runs (1-4 calls each); non-trivial = at least one injected "
+               "that and all later ones), plus one execution past the end; in a share of the runs additionally every pair of positions (i, j). evaluations = sampled runs (1-4 calls each); non-trivial = at least one injected "
                "failure fired; distinct = distinct digests of (call, parameters, census, per-position outcomes)";
     }
     static size_t batch_size(bool) { return 40; }
@@ -413,6 +432,7 @@ struct C20 {
         Plan p;
         p.pk = pk;
         p.content_seed = mix64(rs, 0xc20);
+        p.pairs = thorough ? r.chance(1, 2) : r.chance(1, 6);
         size_t nops = (size_t) r.range(1, 4);
         for (size_t i = 0; i < nops; i++) {
             Op op;
@@ -439,7 +459,7 @@ struct C20 {
 
     static Json to_json(const Plan &p) {
         Json j = Json::object();
-        j["knobs"] = p.pk; j["content_seed"] = p.content_seed;
+        j["knobs"] = p.pk; j["content_seed"] = p.content_seed; j["pairs"] = p.pairs;
         Json ops = Json::array();
         for (auto &o : p.ops) {
             Json q = Json::object();
@@ -453,7 +473,7 @@ struct C20 {
     }
     static Plan from_json(const Json &j) {
         Plan p;
-        p.pk = j.at("knobs"); p.content_seed = j.at("content_seed").u64();
+        p.pk = j.at("knobs"); p.content_seed = j.at("content_seed").u64(); p.pairs = j.at("pairs").boolean();
         for (auto &q : j.at("ops").a) {
             Op o;
             for (int i = 0; i < A_NAPI; i++) if (q.at("api").str() == api_name[i]) o.api = i;
@@ -474,6 +494,7 @@ struct C20 {
     static std::vector<Plan> simplify(const Plan &p) {
         std::vector<Plan> out;
         if (p.pk.at("cpu_disable").u64() != 0) { Plan c = p; c.pk["cpu_disable"] = 0u; out.push_back(c); }
+        if (p.pairs) { Plan c = p; c.pairs = false; out.push_back(c); }
         for (size_t i = 0; i < p.ops.size(); i++) {
             const Op &o = p.ops[i];
             if (o.only_pos < 0) for (int pos = 0; pos < 10; pos++) { Plan c = p; c.ops[i].only_pos = pos; out.push_back(c); }
